@@ -437,8 +437,11 @@ class NetWorld(World):
             elif mode < 0.85:
                 x += r.uniform(-st / 2, st / 2)
                 y += r.uniform(-st / 2, st / 2)
-            else:
+            elif mode < 0.97:
                 x += r.uniform(-3 * st, 3 * st)
+                y += r.uniform(-3 * st, 3 * st)
+            else:
+                x += r.choice([-1, 1]) * r.uniform(8000, 20000)      # a gap in the recording: the next fix is km away
                 y += r.uniform(-3 * st, 3 * st)
             obs.append([x, y])
         return obs
